@@ -151,7 +151,10 @@ def r13_3(ctx, rep):
         if isinstance(n, ast.For) and norm(n.iter) in ("ast.Symbol.ATTRIBUTES",) and isinstance(n.target, ast.Name):
             a = n.target.id
             gets = [c for c in calls(n) if is_name(c.func, "getattr") and len(c.args) == 2 and is_name(c.args[1], a)]
-            sets = [c for c in calls(n) if is_name(c.func, "setattr") and len(c.args) == 3 and is_name(c.args[0], "variable") and is_name(c.args[1], a)]
+            made = {st.targets[0].id for st in walk_local(f2) if isinstance(st, ast.Assign) and isinstance(st.targets[0], ast.Name)
+                    and isinstance(st.value, ast.Call) and (call_name(st.value) or "") == "Variable"}
+            sets = [c for c in calls(n) if is_name(c.func, "setattr") and len(c.args) == 3 and isinstance(c.args[0], ast.Name) and c.args[0].id in made
+                    and is_name(c.args[1], a)]
             ok = bool(gets) and bool(sets)
     rep.ob(R, GEN + ":Generator._ast_symbols_to_variables", "attribute copied under its own name", ok,
            "for a in Symbol.ATTRIBUTES: setattr(variable, a, <value of getattr(symbol, a)>)")
@@ -168,10 +171,37 @@ def r13_4(ctx, rep):
     affine_rebuild(ctx, rep, "R13.4")
 
 
+def _metadata_fn(ctx, R):
+    """Model.variable_metadata_function with its role-carrying locals renamed to canonical names: `out` (the list handed to
+    the final ca.Function), `in_var` (its input), `expr` (what the category loop appends to out), `is_affine` (the flag
+    initialised True at the top and cleared to False)"""
+    from ..pyutil import renamed_copy
+    fn = ctx.func(MODEL, "Model.variable_metadata_function", R)
+    roles = {}
+    for n in ast.walk(fn):
+        if isinstance(n, ast.Call) and (call_name(n) or "").endswith("Function") and len(n.args) >= 3 and isinstance(n.args[0], ast.Constant) \
+                and n.args[0].value == "variable_metadata" and isinstance(n.args[2], ast.Name):
+            roles[n.args[2].id] = "out"
+            if isinstance(n.args[1], ast.List) and len(n.args[1].elts) == 1 and isinstance(n.args[1].elts[0], ast.Name):
+                roles[n.args[1].elts[0].id] = "in_var"
+    out = next((k for k, v in roles.items() if v == "out"), None)
+    for st in fn.body:
+        if isinstance(st, ast.Assign) and isinstance(st.targets[0], ast.Name) and isinstance(st.value, ast.Constant) and st.value.value is True:
+            roles[st.targets[0].id] = "is_affine"
+        if isinstance(st, ast.For):
+            for c in ast.walk(st):
+                if isinstance(c, ast.Call) and isinstance(c.func, ast.Attribute) and c.func.attr == "append" and is_name(c.func.value, out or "") \
+                        and c.args and isinstance(c.args[0], ast.Name):
+                    roles[c.args[0].id] = "expr"
+    if sorted(set(roles.values())) != ["expr", "in_var", "is_affine", "out"]:
+        raise MechanismMissing(R, "variable_metadata_function: output list / input / per-category expression / affine flag not found (%s)" % roles)
+    return renamed_copy(fn, {k: v for k, v in roles.items() if k != v})
+
+
 def affine_rebuild(ctx, rep, R):
     from ..cfg import CFG
 
-    fn = ctx.func(MODEL, "Model.variable_metadata_function", R)
+    fn = _metadata_fn(ctx, R)
     site = MODEL + ":Model.variable_metadata_function"
     cfg = CFG(fn, R)
     def is_hess(x):
